@@ -616,9 +616,12 @@ func (e *Env) evalOld(x ast.Expr) Value {
 	// components touched later but never read at entry resolve to their H0 atom
 	for k, v := range e.S.Heap {
 		if _, ok := s2.Heap[k]; !ok {
-			s2.Heap[k] = Atom("H0."+k, v.Sort)
+			s2.Heap[k] = compAtom(k, v.Sort, epochOf(e.S.OldEpoch, k))
 		}
 	}
+	// components first read while evaluating old(...) belong to the snapshot's epochs
+	s2.Epoch = e.S.OldEpoch
+	s2.Old, s2.OldEpoch = nil, nil
 	cells := copyMap(e.S.Cells)
 	for c, v := range e.S.OldCells {
 		cells[c] = v
